@@ -236,7 +236,7 @@ def safeOrigins : List String := [
   "clientConn.SetDeadline", "wrapped.SetDeadline",
   -- GeoIP lookups: hypothesis shared with C03 (the error text does not repeat the looked-up address; true
   -- for IPv6-format databases, which every GeoLite2 file is)
-  "regManager.GeoIP.CC", "regManager.GeoIP.ASN",
+  "regManager.GeoIP.CC", "regManager.GeoIP.ASN", "regManager.GeoIPDatabase().CC", "regManager.GeoIPDatabase().ASN",
   -- proxies.go: the PROXY header is written to the covert connection (station and covert endpoints); the
   -- client address is parsed from `RemoteAddr().String()`, which is host:port for TCP and UDP peers
   "writePROXYHeader",
